@@ -1,4 +1,5 @@
 import ChessVerif.Props.C10
+import ChessVerif.Props.C10.Basic
 open Chess.Props.C10
 #print axioms movesOf_legalsMasked
 #print axioms legalsMasked_iff
